@@ -3,7 +3,7 @@ CONSTANTS
  Mans = {"m1", "m2"}
  TagOrder <- MCTagOrder
  Procs = {"p1", "p2"}
- Confs <- LayClean
+ Confs <- LayAll
  MaxOps = 2
  OpTags = {"t1", "t2"}
  OpMans = {"m1", "m2"}
@@ -11,5 +11,5 @@ CONSTANTS
  UseMutex = TRUE
  FreshPH = TRUE
 SPECIFICATION Spec
-INVARIANTS NoViol Glue Quiescent LayoutGlue WellFormed CacheCoherent GetStable
+INVARIANTS NoViol Glue Quiescent LayoutGlue WellFormed CacheCoherent GetStable HeadStable
 CHECK_DEADLOCK FALSE
